@@ -451,7 +451,9 @@ impl CubicBez {
         let det_123 = d12.cross(d23);
         let det_013 = d01.cross(d03);
         let det_023 = d02.cross(d03);
-        if det_012 * det_123 > 0.0 && det_012 * det_013 < 0.0 && det_012 * det_023 < 0.0 {
+        // The derivative can only vanish when the origin is in the hull of its control
+        // points `d01`, `d12`, `d23` (note that `det_012` is also `d01.cross(d12)`).
+        if det_012 * det_123 > 0.0 && det_012 * d01.cross(d23) < 0.0 {
             let q = self.deriv();
             // accuracy isn't used for quadratic nearest
             let nearest = q.nearest(Point::ORIGIN, 1e-9);
